@@ -200,6 +200,10 @@ def kf_matches(entry, mismatch):
         return False            # a fixed entry suppresses nothing
     if entry.get("property") != mismatch.get("prop"):
         return False
+    if "pred" in entry:
+        import kf_preds
+        if not kf_preds.PREDS[entry["pred"]](mismatch):
+            return False
     for path, want in entry.get("match", {}).items():
         got = dig(mismatch, path)
         if isinstance(want, dict) and "in" in want:
